@@ -249,6 +249,57 @@ func c09Concurrent(c *hx.Ctx) []*scenario {
 	return out
 }
 
+// two or three API calls at once, the first held inside conn.Send by the gate: whatever the others do
+// meanwhile, every request that went out on the live connection gets its future resolved by its own answer
+func c09GatedPairs(c *hx.Ctx) []*scenario {
+	var out []*scenario
+	kinds := []string{"pub0", "pub1", "pub2", "sub", "uns"}
+	mk := func(kind string, call int) step {
+		switch kind {
+		case "pub0":
+			return sAsync(sPub(call, 0))
+		case "pub1":
+			return sAsync(sPub(call, 1))
+		case "pub2":
+			return sAsync(sPub(call, 2))
+		case "sub":
+			return sAsync(sSub(call, 1))
+		}
+		return sAsync(sUns(call))
+	}
+	acks := func(ks ...string) int {
+		n := 0
+		for _, k := range ks {
+			switch k {
+			case "pub0":
+			case "pub2":
+				n += 2
+			default:
+				n++
+			}
+		}
+		return n
+	}
+	for ci, cfg := range []cfgT{cfgDefault, cfgPersist} {
+		for _, a := range kinds {
+			for _, b := range kinds {
+				if ci == 1 && !c.Thorough() && !(a == "pub0" || b == "pub0") {
+					continue
+				}
+				steps := cat(opening(cfg, 1, false), []step{sAuto(acks(a, b)), mk(a, 2), sWaitGate("g"), mk(b, 3), {op: "sleep", n: 25},
+					sRelease("g"), sWaitRet(2), sWaitRet(3), sWaitFut(2), sWaitFut(3), sDisc(4, false)})
+				out = append(out, &scenario{name: fmt.Sprintf("gated/%s+%s-c%d", a, b, ci), gates: []gateSpec{{kind: "send", k: 2, name: "g"}}, steps: steps})
+			}
+		}
+		for _, tr := range [][3]string{{"pub0", "pub0", "pub0"}, {"pub0", "pub1", "pub0"}, {"sub", "pub0", "uns"}, {"pub1", "pub2", "sub"}} {
+			steps := cat(opening(cfg, 1, false), []step{sAuto(acks(tr[0], tr[1], tr[2])), mk(tr[0], 2), sWaitGate("g"), mk(tr[1], 3), mk(tr[2], 4), {op: "sleep", n: 25},
+				sRelease("g"), sWaitRet(2), sWaitRet(3), sWaitRet(4), sWaitFut(2), sWaitFut(3), sWaitFut(4), sDisc(5, false)})
+			out = append(out, &scenario{name: fmt.Sprintf("gated/%s+%s+%s-c%d", tr[0], tr[1], tr[2], ci), gates: []gateSpec{{kind: "send", k: 2, name: "g"}}, steps: steps})
+		}
+	}
+	return out
+}
+
 // the schedules of repaired defects, replayed by gating: they must pass now
 func c09Regress(c *hx.Ctx) []*scenario {
 	var out []*scenario
@@ -345,6 +396,7 @@ func c09Scenarios(c *hx.Ctx) []*scenario {
 	out = append(out, c09Pinger(c)...)
 	out = append(out, c09Basic()...)
 	out = append(out, c09Regress(c)...)
+	out = append(out, c09GatedPairs(c)...)
 	out = append(out, c09Connack()...)
 	out = append(out, c09Resume(c)...)
 	out = append(out, c09Faults(c)...)
